@@ -184,6 +184,7 @@ func (ps *PegSpec) Prelude(ruleConst map[string]int, ast bool) string {
 	var sb strings.Builder
 	sb.WriteString("; ---- pegspec\n(declare-sort TSeq 0)\n(declare-fun snoc (TSeq DT_token) TSeq)\n(declare-const seq_empty TSeq)\n")
 	sb.WriteString("(declare-fun tabs ((Array Int DT_token) Int) TSeq)\n")
+	sb.WriteString("(declare-sort TSeg 0)\n(declare-fun cat (TSeq TSeg) TSeq)\n(declare-fun seg2 ((Array Int DT_token) Int Int) TSeg)\n(declare-fun TOKS (Int Int) TSeg)\n")
 	sb.WriteString("(declare-const bufc (Array Int Int))\n(declare-const n Int)\n")
 	sb.WriteString("(declare-fun OK (Int Int) Bool)\n(declare-fun END (Int Int) Int)\n(declare-fun APP (Int Int TSeq) TSeq)\n(declare-fun MX (Int Int DT_token) DT_token)\n")
 	sb.WriteString("(declare-sort TLog 0)\n(declare-fun snocL (TLog Int Str) TLog)\n(declare-fun TXT (Int Int Str) Str)\n(declare-fun LOG (Int Int TLog Str) TLog)\n")
@@ -191,6 +192,9 @@ func (ps *PegSpec) Prelude(ruleConst map[string]int, ast bool) string {
 	for i := range ps.Preds {
 		fmt.Fprintf(&sb, "(declare-fun P_%d (Int) Bool)\n", i)
 	}
+	// IDEMP (trusted property of the table, by induction over its rows): re-running an attempt with the
+	// register it produced does not move the register
+	sb.WriteString("(assert (forall ((r Int) (p Int) (m DT_token)) (! (= (MX r p (MX r p m)) (MX r p m)) :pattern ((MX r p (MX r p m))))))\n")
 	ps.ruleDefs = map[string]string{}
 	for _, r := range ps.Rules {
 		ps.defs = nil
